@@ -59,14 +59,20 @@ class C01(Prop):
             "newline/delivery x both engines.  Non-trivial = wrap on, or >20 rows, or a non-default format/width option; "
             "distinct = distinct event-log digests.")
     assumptions = [
-        "spacers are whitespace; data_width >= the longest formatted field + spacer (documented preconditions)",
+        "spacers are blanks, or a comma / tab (the writer then declares DLM COMMA / TAB); data_width >= the longest formatted "
+        "field + spacer (documented precondition)",
         "a finite non-index sample whose printed form is numerically equal to the NULL marker is regenerated (C06 makes "
         "it NaN by definition)",
         "half a unit of the last printed digit is derived from `fmt % x` computed here in Python, plus 2 ulp for "
         "decimal -> binary conversion",
         "|x| <= 1e18 with fixed formats so that tokens stay shorter than the drawn data_width",
     ]
-    quick = {"runs": 12000, "wall": 60}
+    def pred_wrapped_spacer(sc, v, params):
+        kw = sc["kw"]
+        return kw.get("wrap") is True and kw.get("spacer", " ").strip(" ") in (",", "\t")
+
+    predicates = {"wrapped_nonblank_spacer": pred_wrapped_spacer}
+    quick = {"runs": 9000, "wall": 60}
     thorough = {"runs": 150000, "wall": 900}
 
     def gen(self, st, tier, index):
@@ -82,7 +88,7 @@ class C01(Prop):
         if v is not None:
             kw["version"] = v
         lnf = g.choice([None, None, None, -1, "fit", "fit+3"])
-        spacer = g.choice([" ", " ", "  "])
+        spacer = g.choice([" ", " ", "  ", " ", ",", ", ", "\t"])
         lhs = g.choice([" ", " ", "", "   "])
         if spacer != " ":
             kw["spacer"] = spacer
